@@ -278,6 +278,10 @@ def rule_recipes(model, rep):
     rep.minimum(R, 80)
 
 
+from . import c07 as _c07  # noqa: E402
+from .shared import Renamed as _Renamed  # noqa: E402
+
+
 def run(model, rep):
     rep.explanation = __doc__
     rep.assumptions = ["references are generated from the specifications cited in pv/refs.py", "hashlib digests and the primitives of C11 are correct"]
@@ -286,4 +290,9 @@ def run(model, rep):
     rule_sibling(model, rep)
     rule_recipes(model, rep)
     from . import prim
-    prim.rule_hmac(model, rep, "C02.e-hmac")   # sha1_crypt, bcrypt_sha256 v2 and scram/pbkdf2 digests are HMAC based
+    prim.rule_hmac(model, rep, "C02.e-hmac")
+    # a setting that selects the algorithm variant (sun_md5_crypt's bare-salt flag decides whether '$' is part of the salt string that
+    # is hashed) must survive rendering, or the string no longer names the digest that was computed
+    from pv.handlers import HandlerTable as _HT
+    _t = _HT(model)
+    _c07.rule_b(model, _Renamed(rep, {"C07.b": "C02.f-settings-rendered"}, "C02.x-"), _c07._handler_pairs(model, _t), _c07._libpass_pairs(model))   # sha1_crypt, bcrypt_sha256 v2 and scram/pbkdf2 digests are HMAC based
